@@ -46,12 +46,12 @@ import falcon.uri as U
 # alphabets
 # --------------------------------------------------------------------------
 CLASSES = ('pct', 'plus', 'hexdig1', 'hexdig2', 'HEXUP', 'hexlow', 'nonhex', 'resv1', 'resv2',
-           'unresv1', 'unresv2', 'space', 'nul', 'u2', 'u3', 'u4')
+           'unresv1', 'unresv2', 'space', 'nul', 'u2', 'u3', 'u4', 'lf')
 
 _SEED_SYMS = [
-    ('%', '+', '4', '1', 'A', 'f', 'G', '/', '?', '~', '-', ' ', '\x00', 'é', '€', '\U0001F600'),
-    ('%', '+', '5', '2', 'C', 'e', 'Z', ':', '&', '.', '_', ' ', '\x00', 'ß', '∑', '\U0001F642'),
-    ('%', '+', '3', '0', 'D', 'a', 'x', '#', '=', '-', '~', ' ', '\x00', 'ü', '中', '\U0001D11E'),
+    ('%', '+', '4', '1', 'A', 'f', 'G', '/', '?', '~', '-', ' ', '\x00', 'é', '€', '\U0001F600', '\n'),
+    ('%', '+', '5', '2', 'C', 'e', 'Z', ':', '&', '.', '_', ' ', '\x00', 'ß', '∑', '\U0001F642', '\n'),
+    ('%', '+', '3', '0', 'D', 'a', 'x', '#', '=', '-', '~', ' ', '\x00', 'ü', '中', '\U0001D11E', '\n'),
 ]
 
 
@@ -194,7 +194,7 @@ def check_string(s, rep, part, register=True):
 # authorities
 # --------------------------------------------------------------------------
 def authority_forms():
-    """(authority, host, port-or-None) for valid RFC 3986 host[:port] with a non-empty numeric port."""
+    """(authority, host, port-or-None) for valid RFC 3986 host[:port] (numeric or empty port)."""
     regsyms = ['a', '1', '.', '-', '~', '%4A', '!']
     hosts = []
     for n in range(0, 4):
@@ -207,10 +207,11 @@ def authority_forms():
     for lit in ('::1', '::', '2001:db8::1', '2001:db8:0:0:0:0:2:1', '::ffff:1.2.3.4', 'fe80::1%25eth0',
                 'v1.a', 'v1.a:b', 'vF.a-b_c~d:e', '1:2:3:4:5:6:7:8'):
         hosts.append(('[' + lit + ']', lit))
-    ports = [None, '80', '0', '080', '65535', '65536', '8080', '1', '1' * 25]
+    # '' = the empty port of RFC 3986 (port = *DIGIT): "host:" designates the host and no port
+    ports = [None, '', '80', '0', '080', '65535', '65536', '8080', '1', '1' * 25]
     for text, host in hosts:
         for p in ports:
-            yield (text if p is None else text + ':' + p), host, (None if p is None else int(p))
+            yield (text if p is None else text + ':' + p), host, (None if not p else int(p))
 
 
 def check_host(auth, host, port, rep):
